@@ -208,3 +208,174 @@ Proof.
   exists (fun k => if k =? 1 then Some g else if k =? 0 then Some f else None), f, 1, None.
   split; [vm_compute; discriminate|]. vm_compute. intros H. inversion H.
 Qed.
+
+(* ---------------------------------------------------------------------------------------- *)
+(* NifFile::DeleteShape (repaired): the geometry data block is deleted only when the shape is its
+   only referrer (GetBlockRefCount(data, false) == 1), then - after shader, skin, properties, extra
+   data, none of which is ever the target of a cached pointer - the shape itself. In between the
+   shape's own cached pointer dangles, which nobody can observe; afterwards the invariant holds. *)
+Section DeleteShape.
+Variable compat : N -> N -> bool.
+
+Definition euid (e : entry) : N := let '(u, _, _, _) := e in u.
+
+(* the invariant for every object but [u] *)
+Definition LinkInvBut (f : file) (u : N) : Prop :=
+  hown f = fid f /\
+  Forall (fun e => euid e = u \/ linked compat (fid f) (view (fh f)) (heap f) e) (view (fh f)).
+
+Lemma link_inv_but_of f u : LinkInv compat f -> LinkInvBut f u.
+Proof. intros [Ho HL]. split; [exact Ho|]. eapply Forall_impl; [|exact HL]. intros e He. right. exact He. Qed.
+
+Lemma link_inv_of_but f u : LinkInvBut f u -> ~ In u (map uid (blocks (fh f))) -> LinkInv compat f.
+Proof.
+  intros [Ho HL] Hni. split; [exact Ho|]. rewrite Forall_forall in *. intros e He.
+  destruct (HL e He) as [Hu|H]; [|exact H]. exfalso. apply Hni.
+  destruct (view_in_block _ _ He) as (b & Hb & ->). cbn in Hu. subst u. apply in_map. exact Hb.
+Qed.
+
+Theorem f_delete_link_but f id u :
+  Inv (fh f) -> LinkInvBut f u -> id < vlen (blocks (fh f)) ->
+  (forall x b o, vget (blocks (fh f)) id = Some x -> In b (blocks (fh f)) -> uid b <> uid x -> uid b <> u ->
+                 acached (heap f (uid b)) <> Some (o, uid x)) ->
+  exists f' x, f_delete f id = Ok f' /\ LinkInvBut f' u /\ Inv (fh f') /\
+    vget (blocks (fh f)) id = Some x /\
+    (forall w, In w (map uid (blocks (fh f'))) <-> (In w (map uid (blocks (fh f))) /\ w <> uid x)) /\
+    heap f' = heap f /\ fid f' = fid f.
+Proof.
+  intros HI [Ho HL] Hid Hfree.
+  destruct (delete_block_spec (fh f) id HI Hid) as (h' & pre & x & post & Hrun & HI' & Hb & Hpl & Hbl' & _ & Hview).
+  unfold f_delete. rewrite Hrun. cbn [bind]. eexists. exists x. split; [reflexivity|].
+  assert (Hx : vget (blocks (fh f)) id = Some x) by (rewrite Hb, <- Hpl; apply vget_mid).
+  pose proof (inv_uids _ HI) as Hnd. rewrite Hb in Hnd.
+  assert (Hsurv : forall c, In c (pre ++ post) -> uid c <> uid x /\ In c (blocks (fh f))).
+  { intros c Hc. split.
+    - intros He. rewrite map_app, map_cons in Hnd. apply NoDup_remove_2 in Hnd. apply Hnd.
+      rewrite <- He, <- map_app. apply in_map. exact Hc.
+    - rewrite Hb. apply in_app_or in Hc. apply in_or_app. destruct Hc; [left|right; right]; auto. }
+  split; [|split; [exact HI'|split; [exact Hx|split; [|split; reflexivity]]]].
+  - split; [exact Ho|]. cbn [with_hdr fid fh heap]. rewrite Hview.
+    rewrite Forall_forall in *. intros e' He'.
+    apply in_map_iff in He'. destruct He' as (e & <- & He).
+    apply in_map_iff in He. destruct He as (c & <- & Hc).
+    destruct (Hsurv c Hc) as [Hcu Hcin].
+    destruct (N.eq_dec (uid c) u) as [Hu|Hu]; [left; exact Hu|]. right.
+    destruct (HL _ (block_in_view _ _ Hcin)) as [Hbad|HLc]; [cbn in Hbad; congruence|].
+    unfold view_block, kill, linked in *.
+    destruct (adslot (heap f (uid c))) as [k|]; [|exact HLc].
+    destruct HLc as [Hn|(w & tw & cw & pw & Hg & Hin & Hcm & Hca)]; [left; exact Hn|]. right.
+    assert (Hwx : w <> uid x) by (intros ->; exact (Hfree x c (fid f) Hx Hcin Hcu Hu Hca)).
+    exists w, tw, (map (kill_ref (uid x)) cw), (map (kill_ref (uid x)) pw). repeat split; auto.
+    + rewrite vget_map, Hg. cbn. destruct (N.eqb_spec w (uid x)); [congruence|reflexivity].
+    + destruct (view_in_block _ _ Hin) as (d & Hd & Hv).
+      apply in_map_iff. exists (w, tw, cw, pw). split; [reflexivity|].
+      rewrite Hv. apply in_map. unfold view_block in Hv. inversion Hv; subst.
+      rewrite Hb in Hd. apply in_app_or in Hd. apply in_or_app.
+      destruct Hd as [Hd|[Hd|Hd]]; [left; auto|subst; congruence|right; auto].
+  - intros w. cbn [with_hdr fh]. rewrite Hbl', map_map. cbn [block_deleted uid].
+    change (map (fun b => uid b) (pre ++ post)) with (map uid (pre ++ post)). rewrite Hb.
+    rewrite !map_app, map_cons, !in_app_iff. cbn [In]. split.
+    + intros Hw. split; [tauto|]. intros ->.
+      rewrite map_app, map_cons in Hnd. apply NoDup_remove_2 in Hnd. apply Hnd. apply in_or_app. exact Hw.
+    + intros [[H|[H|H]] Hne]; auto. congruence.
+Qed.
+
+Theorem delete_shape_link f si id bs x :
+  Inv (fh f) -> LinkInv compat f ->
+  vget (blocks (fh f)) si = Some bs -> vget (blocks (fh f)) id = Some x -> uid bs <> uid x ->
+  (* only the shape caches a pointer to the data block; nobody caches a pointer to the shape *)
+  (forall b o, In b (blocks (fh f)) -> uid b <> uid bs -> acached (heap f (uid b)) <> Some (o, uid x)) ->
+  (forall b o, In b (blocks (fh f)) -> uid b <> uid bs -> acached (heap f (uid b)) <> Some (o, uid bs)) ->
+  exists f1, f_delete f id = Ok f1 /\
+    exists si', (exists b', vget (blocks (fh f1)) si' = Some b' /\ uid b' = uid bs) /\
+    exists f2, f_delete f1 si' = Ok f2 /\ LinkInv compat f2 /\ Inv (fh f2).
+Proof.
+  intros HI HL Hs Hx Hne Honly Hnobody.
+  destruct (f_delete_link_but f id (uid bs) HI (link_inv_but_of f (uid bs) HL) (vget_some_lt' _ _ _ Hx))
+    as (f1 & x' & E1 & HL1 & HI1 & Hx' & Hu1 & Hh1 & Hf1).
+  { intros x0 b o Hx0 Hb Hbx Hbs. rewrite Hx in Hx0. inversion Hx0; subst x0. apply Honly; auto. }
+  rewrite Hx in Hx'. inversion Hx'; subst x'. exists f1. split; [exact E1|].
+  assert (Hin1 : In (uid bs) (map uid (blocks (fh f1)))).
+  { apply Hu1. split; [apply in_map; eapply in_vget; eauto|exact Hne]. }
+  apply in_map_iff in Hin1. destruct Hin1 as (b' & Hub' & Hb'). destruct (in_vget_ex _ _ Hb') as (si' & Hsi').
+  exists si'. split; [eauto|].
+  destruct (f_delete_link_but f1 si' (uid bs) HI1 HL1 (vget_some_lt' _ _ _ Hsi'))
+    as (f2 & y & E2 & HL2 & HI2 & Hy & Hu2 & _).
+  { intros x0 b o Hx0 Hb _ Hbs. rewrite Hsi' in Hx0. inversion Hx0; subst x0. rewrite Hub', Hh1.
+    assert (Hbu : In (uid b) (map uid (blocks (fh f)))) by (apply Hu1; apply in_map; exact Hb).
+    apply in_map_iff in Hbu. destruct Hbu as (b0 & Hub0 & Hb0). rewrite <- Hub0. apply Hnobody; auto. congruence. }
+  exists f2. split; [exact E2|]. split; [|exact HI2].
+  apply (link_inv_of_but f2 (uid bs) HL2). intros Hin. apply Hu2 in Hin. destruct Hin as [_ Hn].
+  rewrite Hsi' in Hy. inversion Hy; subst y. congruence.
+Qed.
+
+(* the guard of the repaired DeleteShape: when the shape is the ONLY block referencing the data
+   block (reference count 1, pointers not counted), no other shape caches a pointer to it *)
+Definition cnt (id : N) (b : block) : N := count_eq id (crefs b).
+Fixpoint sumc (id : N) (l : list block) : N :=
+  match l with [] => 0 | b :: r => cnt id b + sumc id r end.
+
+Lemma fold_sumc id : forall l acc,
+  fold_left (fun a b => a + count_eq id (refs_of false b)) l acc = acc + sumc id l.
+Proof.
+  induction l as [|b l IH]; intros acc; cbn [fold_left sumc]; [lia|]. rewrite IH. unfold cnt, refs_of. lia.
+Qed.
+
+Lemma sumc_in id b : forall l, In b l -> cnt id b <= sumc id l.
+Proof.
+  induction l as [|a l IH]; intros H; [contradiction|]. cbn [sumc]. destruct H as [->|H]; [lia|].
+  specialize (IH H). lia.
+Qed.
+
+Lemma sumc_two id b c : forall l, In b l -> In c l -> b <> c -> cnt id b + cnt id c <= sumc id l.
+Proof.
+  induction l as [|a l IH]; intros Hb Hc Hne; [contradiction|]. cbn [sumc].
+  destruct Hb as [->|Hb], Hc as [->|Hc]; try congruence.
+  - pose proof (sumc_in id c l Hc). lia.
+  - pose proof (sumc_in id b l Hb). lia.
+  - specialize (IH Hb Hc Hne). lia.
+Qed.
+
+Lemma count_eq_in x l : In x l -> 1 <= count_eq x l.
+Proof.
+  unfold count_eq, vlen. induction l as [|a l IH]; intros H; [contradiction|]. cbn [filter].
+  destruct H as [->|H].
+  - rewrite N.eqb_refl. cbn [length]. lia.
+  - destruct (x =? a); cbn [length]; specialize (IH H); lia.
+Qed.
+
+Lemma vget_uid_inj bl i j b : NoDup (map uid bl) -> vget bl i = Some b -> vget bl j = Some b -> i = j.
+Proof.
+  intros Hnd Hi Hj. unfold vget in *.
+  assert (N.to_nat i = N.to_nat j); [|lia].
+  rewrite NoDup_nth_error in Hnd. apply Hnd.
+  - rewrite map_length. apply nth_error_Some. congruence.
+  - rewrite !nth_error_map, Hi, Hj. reflexivity.
+Qed.
+
+Theorem sole_referrer_sole_cacher f si id bs x :
+  Inv (fh f) -> LinkInv compat f ->
+  vget (blocks (fh f)) si = Some bs -> vget (blocks (fh f)) id = Some x ->
+  In id (crefs bs) -> ref_count (fh f) id false = 1 ->
+  forall b o, In b (blocks (fh f)) -> uid b <> uid bs -> acached (heap f (uid b)) <> Some (o, uid x).
+Proof.
+  intros HI [_ HL] Hs Hx Hidc Hrc b o Hb Hne Hca.
+  rewrite Forall_forall in HL. specialize (HL _ (block_in_view _ _ Hb)). unfold view_block, linked in HL.
+  destruct (adslot (heap f (uid b))) as [k|]; [|congruence].
+  destruct HL as [Hn|(w & tw & cw & pw & Hg & _ & _ & Hca')]; [congruence|].
+  rewrite Hca in Hca'. inversion Hca'; subst o w.
+  rewrite vget_map in Hg. destruct (vget (crefs b) k) as [r|] eqn:Hr; cbn in Hg; [|discriminate].
+  inversion Hg as [Hres]. destruct (resolve_some _ _ _ Hres) as (Hrn & d & Hd & Hdu).
+  assert (d = x) by (eapply uid_inj_in; eauto using in_vget, inv_uids). subst d.
+  assert (r = id) by (eapply vget_uid_inj; eauto using inv_uids). subst r.
+  (* both b and bs reference id: the count is at least 2 *)
+  unfold ref_count in Hrc. destruct (id =? NPOS); [discriminate|].
+  rewrite fold_sumc in Hrc.
+  assert (Hbs : In bs (blocks (fh f))) by (eapply in_vget; eauto).
+  assert (b <> bs) by congruence.
+  pose proof (sumc_two id b bs _ Hb Hbs H).
+  pose proof (count_eq_in id (crefs b) (in_vget _ _ _ Hr)). pose proof (count_eq_in id (crefs bs) Hidc).
+  unfold cnt in *. lia.
+Qed.
+
+End DeleteShape.
